@@ -416,6 +416,10 @@ def nanvar(
     scalar or ndarray
         Variance of values
     """
+    arr = np.asarray(arr)
+    if arr.dtype.kind in "iub":
+        # squares and squared sums of integers overflow quickly: work in floats like numpy
+        arr = arr.astype(np.float64)
     kwargs = locals().copy()
     del kwargs["ddof"]
     n = count(arr, axis=axis)
